@@ -29,7 +29,12 @@
 (assert (forall ((l Lst)) (! (>= (rankL l) 0) :pattern ((rankL l)))))
 (assert (forall ((m MapC) (k String)) (! (=> (not (= (select m k) VAbsent)) (< (rank (select m k)) (rank (VMap m)))) :pattern ((rank (select m k)) (rank (VMap m))))))
 (assert (forall ((v Val) (k String)) (! (=> (and ((_ is VMap) v) (not (= (select (mc v) k) VAbsent))) (< (rank (select (mc v) k)) (rank v))) :pattern ((rank (select (mc v) k))))))
-(assert (forall ((v Val)) (! (=> ((_ is VList) v) (< (rankL (ls v)) (rank v))) :pattern ((rankL (ls v))))))
-(assert (forall ((h Val) (t Lst)) (! (and (< (rank h) (rankL (LCons h t))) (<= (rankL t) (rankL (LCons h t)))) :pattern ((LCons h t)))))
+(assert (forall ((v Val)) (! (=> ((_ is VList) v) (= (rank v) (+ 1 (rankL (ls v))))) :pattern ((rank v)))))
+(assert (= (rankL LNil) 0))
+(assert (forall ((h Val) (t Lst)) (! (= (rankL (LCons h t)) (+ 1 (rank h) (rankL t))) :pattern ((LCons h t)))))
+(assert (forall ((v Val)) (! (=> (and (not ((_ is VList) v)) (not ((_ is VMap) v))) (= (rank v) 0)) :pattern ((rank v)))))
 (assert (forall ((a Lst) (b Lst)) (! (>= (rankL (app a b)) (rankL b)) :pattern ((app a b)))))
 (assert (forall ((m MapC) (k String)) (! (<= (rank (VMap (store m k VAbsent))) (rank (VMap m))) :pattern ((rank (VMap (store m k VAbsent)))))))
+; AX strSplitHead: the first part of strings.Split(s, sep) is the text before the first separator (sep non-empty)
+(assert (forall ((s String) (p String)) (! (=> (> (str.len p) 0)
+   (= (shd (strSplit s p)) (ite (str.contains s p) (str.substr s 0 (str.indexof s p 0)) s))) :pattern ((strSplit s p)))))
